@@ -27,14 +27,7 @@ fn c11_writer_shape() {
     let mins: i32 = kani::any();
     kani::assume(mins > -1440 && mins < 1440);
     let off = FixedOffset::east_opt(mins * 60).unwrap();
-    let dt = match off.from_local_datetime(&d.and_time(t)) {
-        chrono::offset::LocalResult::Single(x) => x,
-        _ => return,
-    };
-    let items = [Item::Fixed(Fixed::RFC2822)];
-    let mut buf = Buf::<32>::new();
-    use core::fmt::Write;
-    assert!(dt.format_with_items(items.iter()).write_to(&mut buf).is_ok() && !buf.overflow);
+    let buf: Buf<32> = render_wall(d, t, off, &[Item::Fixed(Fixed::RFC2822)]);
     let b = &buf.b;
     let wd = WD[weekday_index(y, m, dd) as usize];
     assert!(b[0] == wd[0] && b[1] == wd[1] && b[2] == wd[2] && b[3] == b',' && b[4] == b' ');
@@ -61,13 +54,8 @@ fn c11_writer_shape() {
     kani::cover!(mins < 0);
 }
 
-#[cfg(kani)]
-fn render2822(dt: &chrono::DateTime<FixedOffset>) -> Buf<32> {
-    use core::fmt::Write;
-    let items = [Item::Fixed(Fixed::RFC2822)];
-    let mut buf = Buf::<32>::new();
-    assert!(dt.format_with_items(items.iter()).write_to(&mut buf).is_ok() && !buf.overflow);
-    buf
+fn render2822(d: NaiveDate, t: NaiveTime, off: FixedOffset) -> Buf<32> {
+    render_wall(d, t, off, &[Item::Fixed(Fixed::RFC2822)])
 }
 
 // @ob tier=quick timeout=900 mem=14
@@ -81,8 +69,7 @@ fn c11_writer_date_part() {
     let d = any_date();
     let (y, m, dd) = (d.year(), d.month(), d.day());
     kani::assume(y >= 0 && y <= 9999 && valid_ymd(y, m, dd));
-    let dt = FixedOffset::east_opt(0).unwrap().from_utc_datetime(&d.and_hms_opt(12, 34, 56).unwrap());
-    let buf = render2822(&dt);
+    let buf = render2822(d, NaiveTime::from_hms_opt(12, 34, 56).unwrap(), FixedOffset::east_opt(0).unwrap());
     let b = &buf.b;
     let wd = WD[weekday_index(y, m, dd) as usize];
     assert!(b[0] == wd[0] && b[1] == wd[1] && b[2] == wd[2] && b[3] == b',' && b[4] == b' ');
@@ -117,12 +104,7 @@ fn c11_writer_time_part() {
     let mins: i32 = kani::any();
     kani::assume(mins > -1440 && mins < 1440);
     let off = FixedOffset::east_opt(mins * 60).unwrap();
-    let local = NaiveDate::from_ymd_opt(2001, 7, 8).unwrap().and_time(t);
-    let dt = match off.from_local_datetime(&local) {
-        chrono::offset::LocalResult::Single(x) => x,
-        _ => return,
-    };
-    let buf = render2822(&dt);
+    let buf = render2822(NaiveDate::from_ymd_opt(2001, 7, 8).unwrap(), t, off);
     let b = &buf.b;
     // "Sun, 8 Jul 2001 " is 16 bytes
     assert!(b[0] == b'S' && b[1] == b'u' && b[2] == b'n' && b[5] == b'8' && b[7] == b'J' && b[11] == b'2' && b[14] == b'1' && b[15] == b' ');
